@@ -5,7 +5,8 @@
 From Coq Require Import List NArith ZArith Bool.
 From LW Require Import Base.Outcome Base.Bytes Mac.Commands Mac.Stream Frame.Model Frame.Checked.
 From LW Require Import Frame.CheckedJoin.
-From LW Require Frame.TotalProofs Frame.TotalJoinProofs Mac.TotalProofs.
+From LW Require Import Text.Base64 Frame.Text.
+From LW Require Frame.TotalProofs Frame.TotalJoinProofs Frame.TextProofs Mac.TotalProofs.
 From LW Require App.ClockSync App.Multicast App.FragCmds App.FwMgmt App.ClockSyncProofs App.MulticastProofs App.FragCmdsProofs App.FwMgmtProofs App.DecodeTotalProofs.
 From LW Require Mem.Heap Mem.Alias Mem.AliasProofs.
 From LWGen Require Import RegistryGen.
@@ -22,6 +23,12 @@ Print Assumptions C09_frame_total.
 Theorem C09_frame_checked_is_model : forall data, phy_unmarshal_chk data = phy_unmarshal data.
 Proof. exact Frame.TotalProofs.phy_chk_eq. Qed.
 Print Assumptions C09_frame_checked_is_model.
+
+(* the base64 text entry point (PHYPayload.UnmarshalText): base64 decoding is a total function of
+   the text (Text/Base64.v, compared with encoding/base64 on every text case), then the frame decoder *)
+Theorem C09_frame_text_total : forall t, Frame.TotalProofs.okerr (phy_unmarshal_text t).
+Proof. exact Frame.TextProofs.phy_unmarshal_text_total. Qed.
+Print Assumptions C09_frame_text_total.
 
 Theorem C09_macpayload_total : forall data,
   mac_unmarshal_chk data <> Panic /\ mac_unmarshal_chk data <> OutOfFuel.
